@@ -59,6 +59,86 @@ pub fn run(cx: &mut Ctx) {
     lex_string_order(cx);
     conversion_flags(cx, &refd);
     crate::rules::c16::writer_reader(cx, "C06.W1");
+    {
+        let rule = "C06.Z1";
+        cx.rule(rule, "decimal literals with leading zeros: only a decimal INTEGER with a non-zero value is rejected (`007`); `0`, `00`, `0_0` are the integer 0 and `007j`, `00.5`, `01e1` keep their values — read from the exits of lex_normal_number (shared with C04.N1)");
+        cx.floor(rule, 1);
+        crate::rules::c04::leading_zero_rule(cx, rule);
+    }
+    escape_dispatch(cx);
+}
+
+/// K1: escapes are decoded exactly in the non-raw kinds.
+fn escape_dispatch(cx: &mut Ctx) {
+    use crate::eval::{Machine, V};
+    let rule = "C06.K1";
+    cx.rule(rule, "backslash escapes are decoded exactly in the literals that are not raw: in parse_string, parse_bytes and parse_fstring the guard of the backslash arm, evaluated for each of the seven string kinds, is true iff the kind is not one of RawString / RawBytes / RawFString (the kind predicates themselves are C06.P1)");
+    cx.floor(rule, 3);
+    let Ok(src) = sm::load(&cx.repo, "parser/src/string.rs") else { return cx.anchor_missing(rule, "parser/src/string.rs") };
+    let kinds = ["String", "FString", "Bytes", "RawString", "RawFString", "RawBytes", "Unicode"];
+    let pred = |kind: &str, m: &str| -> Option<bool> {
+        Some(match m {
+            "is_raw" => matches!(kind, "RawString" | "RawFString" | "RawBytes"),
+            "is_any_fstring" => matches!(kind, "FString" | "RawFString"),
+            "is_any_bytes" => matches!(kind, "Bytes" | "RawBytes"),
+            "is_unicode" => kind == "Unicode",
+            _ => return None,
+        })
+    };
+    for fname in ["parse_string", "parse_bytes", "parse_fstring"] {
+        let Some(f) = src.method("StringParser", fname) else {
+            cx.anchor_missing(rule, fname);
+            continue;
+        };
+        // the arm for the backslash character in the match on the consumed character
+        let mut arms: Vec<&syn::Arm> = vec![];
+        sm::for_each_expr_in_block(&f.block, |e| {
+            if let syn::Expr::Match(m) = e {
+                for a in &m.arms {
+                    if sm::tsc(&a.pat) == "'\\\\'" {
+                        arms.push(a);
+                    }
+                }
+            }
+        });
+        if arms.len() != 1 {
+            cx.fail(rule, &format!("{}/{}/arm", rule, fname), &src.loc(f), &format!("{} has {} arms for the backslash character (1 expected)", fname, arms.len()));
+            continue;
+        }
+        let arm = arms[0];
+        let mut bad = vec![];
+        for k in kinds {
+            let decoded = match &arm.guard {
+                None => Ok(true),
+                Some((_, g)) => {
+                    let methods = |recv: &V, m: &str, _a: &[V]| -> Option<V> {
+                        match recv {
+                            V::Enum(e) => e.strip_prefix("StringKind::").and_then(|kk| pred(kk, m)).map(V::Bool),
+                            _ => None,
+                        }
+                    };
+                    let mut mach = Machine::new(&methods);
+                    mach.set("self.kind", V::Enum(format!("StringKind::{}", k)));
+                    match mach.eval(g) {
+                        Ok(V::Bool(b)) => Ok(b),
+                        Ok(o) => Err(format!("guard evaluates to {:?}", o)),
+                        Err(e) => Err(e),
+                    }
+                }
+            };
+            let raw = pred(k, "is_raw").unwrap();
+            match decoded {
+                Ok(d) if d == !raw => {}
+                Ok(d) => bad.push(format!("{}: escapes {}", k, if d { "decoded although the literal is raw" } else { "left verbatim although the literal is not raw" })),
+                Err(e) => bad.push(format!("{}: {}", k, e)),
+            }
+        }
+        if bad.is_empty() {
+            cx.ok(rule, &format!("{}: backslash arm taken exactly for the non-raw kinds (7 kinds evaluated)", fname));
+        } else {
+            cx.fail(rule, &format!("{}/{}", rule, fname), &src.loc(&arm.pat), &format!("{}: {}", fname, bad.join("; ")));
+        }
+    }
 }
 
 pub fn escape_table(cx: &mut Ctx, refd: &serde_json::Value, rule: &str) {
